@@ -19,7 +19,6 @@ import (
 	"go/constant"
 	"go/token"
 	"go/types"
-	"os"
 	"sort"
 	"strconv"
 	"strings"
@@ -376,6 +375,7 @@ type symWalker struct {
 	feas             map[ast.Node][]bool // per multi-return call: which of its return alternatives are still possible on this path
 	broke            bool                // an unconditional break was executed in the loop body being unrolled
 	loopFrames       []*loopFrame        // the enclosing loops of this function whose bodies are being walked
+	lastTerm         token.Token         // how the last terminating statement left: RETURN, BREAK, CONTINUE, GOTO (panic counts as RETURN)
 	inheritedLeft    []string            // the same for the loops of the callers this function is interpreted in
 	inheritedStopped bool
 	derefStored      map[types.Object]bool // pointer parameters / receivers through which this function stored (`*p = v`)
@@ -389,6 +389,9 @@ type loopFrame struct {
 	left        []string // continue: this iteration only
 	leftForGood []string // break / return / labelled jumps: this and all later iterations
 	switchDepth int      // switch / select statements open inside the body (break leaves those)
+	// variables assigned in a branch that then left the iteration with break / continue: the value travels to the loop's
+	// exit (or to the next iteration) although the walk drops that branch's state
+	escaped map[types.Object]bool
 }
 
 type symReturn struct {
@@ -684,6 +687,33 @@ func (w *symWalker) assumeNilTest(cond *Sym, holds bool) {
 	}
 	for i, p := range ch.Parts {
 		n := altNilness(p)
+		if n == 0 && i < len(ch.AltUnder) {
+			// the helper returned this value on a path on which it had just compared it with nil
+			for _, cd := range ch.AltUnder[i] {
+				c, neg := cd.Cond, cd.Neg
+				for c != nil && c.K == symNot {
+					c, neg = c.X, !neg
+				}
+				if c == nil || c.K != symBin || (c.Op != token.NEQ && c.Op != token.EQL) {
+					continue
+				}
+				var other *Sym
+				switch {
+				case c.Y != nil && c.Y.K == symNil:
+					other = c.X
+				case c.X != nil && c.X.K == symNil:
+					other = c.Y
+				}
+				if other == nil || other.String() != p.String() {
+					continue
+				}
+				if (c.Op == token.NEQ) != neg {
+					n = 1
+				} else {
+					n = -1
+				}
+			}
+		}
 		if wantNonNil && n == -1 {
 			f[i] = false
 		}
@@ -999,11 +1029,29 @@ func (w *symWalker) composite(x *ast.CompositeLit) *Sym {
 	switch u := tv.Type.Underlying().(type) {
 	case *types.Slice, *types.Array:
 		out := &Sym{K: symList, Expr: x, Type: tv.Type}
+		var elemT types.Type
+		switch ut := u.(type) {
+		case *types.Slice:
+			elemT = ut.Elem()
+		case *types.Array:
+			elemT = ut.Elem()
+		}
+		// elements may be keyed by constant indices (`[...]string{B: "b", D: "d"}`): positions in between hold the zero value
+		next := int64(0)
 		for _, el := range x.Elts {
 			if kv, ok := el.(*ast.KeyValueExpr); ok {
+				if ktv, ok := w.info.Types[kv.Key]; ok && ktv.Value != nil && ktv.Value.Kind() == constant.Int {
+					if idx, ok := constant.Int64Val(ktv.Value); ok && idx >= next && idx < 4096 {
+						for next < idx {
+							out.Parts = append(out.Parts, zeroSym(elemT, kv.Key, 1))
+							next++
+						}
+					}
+				}
 				el = kv.Value
 			}
 			out.Parts = append(out.Parts, w.eval(el))
+			next++
 		}
 		return out
 	case *types.Struct:
@@ -1626,6 +1674,7 @@ func (w *symWalker) stmt(st ast.Stmt) (terminates bool) {
 		if call, ok := x.X.(*ast.CallExpr); ok {
 			if id, ok := call.Fun.(*ast.Ident); ok && id.Name == "panic" {
 				if _, isBuiltin := w.info.Uses[id].(*types.Builtin); isBuiltin {
+					w.lastTerm = token.RETURN
 					return true
 				}
 			}
@@ -1721,6 +1770,7 @@ func (w *symWalker) stmt(st ast.Stmt) (terminates bool) {
 		if !errorExit {
 			w.leaveLoop(token.RETURN, false)
 		}
+		w.lastTerm = token.RETURN
 		w.returned = res
 		w.nret++
 		w.rets = append(w.rets, symReturn{condsText(w.conds[min(w.baseCond, len(w.conds)):]), res, append([]symCond{}, w.conds[min(w.baseCond, len(w.conds)):]...)})
@@ -1731,6 +1781,7 @@ func (w *symWalker) stmt(st ast.Stmt) (terminates bool) {
 	case *ast.BranchStmt:
 		if x.Tok != token.FALLTHROUGH {
 			w.leaveLoop(x.Tok, x.Label != nil)
+			w.lastTerm = x.Tok
 		}
 		if x.Tok == token.BREAK {
 			allConst := true
@@ -1774,6 +1825,7 @@ func (w *symWalker) stmt(st ast.Stmt) (terminates bool) {
 		w.conds = append(w.conds, symCond{Cond: cond, Neg: false})
 		w.assumeNilTest(cond, true)
 		t1 := w.block(x.Body.List)
+		term1 := w.lastTerm
 		w.conds = w.conds[:len(w.conds)-1]
 		env1 := w.env
 		feas1 := w.feas
@@ -1792,10 +1844,14 @@ func (w *symWalker) stmt(st ast.Stmt) (terminates bool) {
 		case t1 && t2:
 			return true
 		case t1:
+			w.noteEscapes(x.Body, term1)
 			w.env = env2
 			w.feas = feas2
 			w.conds = append(w.conds, symCond{Cond: cond, Neg: true, Residual: true}) // popped at the end of the enclosing block
 		case t2:
+			if x.Else != nil {
+				w.noteEscapes(x.Else, w.lastTerm)
+			}
 			w.env = env1
 			w.feas = feas1
 			w.conds = append(w.conds, symCond{Cond: cond, Neg: false, Residual: true})
@@ -2606,6 +2662,9 @@ func (w *symWalker) loopOver(x ast.Stmt, X *Sym, key, value ast.Expr, body *ast.
 				break
 			}
 		}
+		if len(frame.escaped) > 0 {
+			w.forget(frame.escaped, x)
+		}
 		return
 	}
 	savedBrokeR := w.broke
@@ -2701,16 +2760,14 @@ func (w *symWalker) loopOver(x ast.Stmt, X *Sym, key, value ast.Expr, body *ast.
 	}
 	bindLoopVars(w)
 	w.loops = append(w.loops, X)
-	w.loopFrames = append(w.loopFrames, &loopFrame{base: len(w.conds)})
+	frame := &loopFrame{base: len(w.conds)}
+	w.loopFrames = append(w.loopFrames, frame)
 	w.block(body.List)
 	w.loopFrames = w.loopFrames[:len(w.loopFrames)-1]
 	w.loops = w.loops[:len(w.loops)-1]
 	after := map[types.Object]*Sym{}
 	for o, a := range accs {
 		v := w.env[o]
-		if os.Getenv("ACV_DBG") != "" {
-			fmt.Fprintf(os.Stderr, "DBG acc %s after body: %s\n", o.Name(), v.String())
-		}
 		if v == nil || v.K != symList || len(v.Parts) == 0 || v.Parts[0] != a.marker {
 			continue
 		}
@@ -2734,6 +2791,9 @@ func (w *symWalker) loopOver(x ast.Stmt, X *Sym, key, value ast.Expr, body *ast.
 	}
 	w.forget(assigned, x)
 	for o, v := range after {
+		if frame.escaped[o] {
+			continue // assigned in a branch that left with break / continue: what it holds after the loop is not known
+		}
 		w.env[o] = v
 	}
 	for _, f := range fills {
@@ -2834,4 +2894,24 @@ func zeroSym(t types.Type, at ast.Expr, depth int) *Sym {
 		}
 	}
 	return &Sym{K: symNil}
+}
+
+// noteEscapes: a branch that assigned variables and then left the iteration with break / continue / goto: its state is
+// not carried on by the walk, but the values reach the code after the loop (or the next iteration); the variables are
+// remembered in the innermost loop frame and come out of the loop as unknown.
+func (w *symWalker) noteEscapes(branch ast.Node, how token.Token) {
+	if how != token.BREAK && how != token.CONTINUE && how != token.GOTO {
+		return
+	}
+	n := len(w.loopFrames)
+	if n == 0 {
+		return
+	}
+	fr := w.loopFrames[n-1]
+	for o := range w.assignedIn(branch) {
+		if fr.escaped == nil {
+			fr.escaped = map[types.Object]bool{}
+		}
+		fr.escaped[o] = true
+	}
 }
